@@ -74,7 +74,7 @@ pub fn enumerate<G: AffineRepr + 'static>(max1: usize, max2: usize, seed: u64, m
 
 pub fn enumerate_opt<G: AffineRepr + 'static>(max1: usize, max2: usize, seed: u64, mk_vals: impl Fn(u64) -> Box<dyn Vals<FOf<G>>>, stop_at_first: bool) -> (usize, Vec<(String, bool)>) {
     let mut out = vec![];
-    let pc = PedersenGens::<G>::default();
+    let pc = pc_for::<G>("c16-enumeration", seed | 1);
     let bp = BulletproofGens::<G>::new(16, 1);
     let s1 = sequences(&ALPHA1, max1);
     let s2 = sequences(&ALPHA2, max2);
